@@ -700,6 +700,13 @@ def slist_getitem(interp, xs, idx):
         return seqs.slice_(interp, xs, idx)
     t = to_z3(idx)
     n = xs.length
+    if st.no_fork and st.side_conditions:
+        # inside a quantifier body sequences are total; being in range becomes part of the body
+        # (natively an out-of-range access makes the clause fail, so `in range` is what the clause says)
+        in_range = z3.And(t >= 0, t < n)
+        if not st.must_hold(in_range):
+            st.side_conditions[-1].append(st._scoped(in_range))
+        return slist_elem(interp, xs, t)
     if st.fork(wrap(z3.And(t >= 0, t < n))):
         return slist_elem(interp, xs, t)
     if st.fork(wrap(z3.And(t < 0, t >= -n))):
@@ -827,6 +834,7 @@ def _quant(interp, args, is_forall):
     n_pc = len(st.pc)
     n_fresh = len(st.fresh_log)
     st.solver.push()
+    st.side_conditions.append([])
     try:
         with st.scope(rng):
             if st.check() == z3.unsat:
@@ -838,6 +846,9 @@ def _quant(interp, args, is_forall):
         st.solver.pop()
         learned = st.pc[n_pc:]
         del st.pc[n_pc:]
+        side = st.side_conditions.pop()
+    if side:
+        body = wrap(z3.And(*(side + [to_z3(body)])))
     # facts assumed about the element at the arbitrary index j hold for every index
     # (forall-introduction: j was fresh and constrained only by the range, which each fact carries).
     # Constants created while evaluating the body (pieces of string decompositions, results of
@@ -895,3 +906,18 @@ def _count_reduce_site(interp):
             fr.reduce_counter = k + 1
             return fr, k
     return None, 0
+
+
+def m_items_of(interp, args, kwargs):
+    """spec helper items_of(it): the remaining items of an iterator / the items of a sequence"""
+    from . import seqs
+    x = args[0]
+    if isinstance(x, (SOpt, SChoice)):
+        x = interp.resolve(x)
+    if isinstance(x, (SList, SIter, SEnumerate)):
+        if isinstance(x, SIter):
+            if isinstance(x.pos, int) and x.pos == 0:
+                return x.xs
+            return seqs.slice_(interp, x.xs, slice(x.pos, None, None))
+        return seqs.as_slist(interp, x)
+    return list(interp.iterate(x))
